@@ -28,6 +28,10 @@ ZONES = ["UTC", "Asia/Tokyo", "America/Los_Angeles", "Asia/Kathmandu"]
 
 
 def _same(a, b):
+    if a is b:
+        return True            # (a NaN left in place is unchanged although NaN != NaN)
+    if isinstance(a, float) and isinstance(b, float):
+        return repr(a) == repr(b)      # content: nan == nan, 0.0 != -0.0
     try:
         import numpy as np
         if isinstance(a, np.ndarray) or isinstance(b, np.ndarray):
@@ -253,6 +257,12 @@ def run(ck):
     for _ in range(n_base):
         nodes, data0, ctx0 = tl.gen_base(rng, stats, maxlen=8 if thorough else 6)
         cases.append({"nodes": nodes, "data0": data0, "ctx0": ctx0, "kind": "none", "index": None})
+    # contexts holding float corner values (NaN, infinities, negative zero) under keys no node touches: outside the model's
+    # integer values (case_coq raises Unsupported), so the direct oracle alone judges these runs
+    specials = {"zz_nan": float("nan"), "zz_inf": float("inf"), "zz_negzero": -0.0}
+    for c in list(cases[len(corpus):])[:(40 if thorough else 8)]:
+        k = rng.choice(sorted(specials))
+        cases.append({"nodes": c["nodes"], "data0": c["data0"], "ctx0": dict(c["ctx0"], **{k: specials[k]}), "kind": "none", "index": None})
     # failing runs too (error SERs must be truthful as well)
     cases += tl.failure_cases(rng, 12 if thorough else 4, stats, maxlen=5)
     combos = [(d, m) for d in tl.DETAILS for m in tl.MODES]
